@@ -32,6 +32,13 @@ var dirSwaps = map[string]map[string][2]string{
 	"lib/audit":         {"github.com/streadway/amqp": {"amqp", modPath + "/zz_verif/simamqp"}},
 	// the timestamp client builds its own http.Transport
 	"lib/pkcs9/tsclient": {"net/http": {"http", modPath + "/zz_verif/simhttp"}},
+	// the inside of the worker child process: inherited sockets, notifications, signals, its HTTP server
+	"cmdline/workercmd": {
+		"net/http":                       {"http", modPath + "/zz_verif/simhttp"},
+		"os/signal":                      {"signal", modPath + "/zz_verif/simsignal"},
+		modPath + "/internal/activation": {"activation", modPath + "/zz_verif/simactivation"},
+		modPath + "/internal/activation/activatecmd": {"activatecmd", modPath + "/zz_verif/simactivate"},
+	},
 	// the worker child process: os/exec, the descriptors handed to the child, kill(2) and the listening socket
 	"token/worker": {
 		"os/exec": {"exec", modPath + "/zz_verif/simexec"},
